@@ -21,13 +21,19 @@ Spec directives (contracts/*.skel):
                                        (or *v / v.value() / v->second of it) get tag <n>
   @facet <n> has_value <C expression>  `v.has_value()` / `if (v)` on a value tagged <n>
   @facet <n> bool <C expression>       a value tagged <n> used as a condition
+  @tagcall <callee> <n>                the value returned by a call to <callee> carries tag <n>; `now() + v` / `v + now()` of a
+                                       value tagged n carries tag n+100 (a deadline that far from the present)
+  @passthrough <member> ...            `x.<member>` of a tagged value keeps the tag (default: first, second)
   @tagparam <fn> <param> <n>           parameter <param> of skeleton function <fn> carries tag <n>
   @pred binop== <C expression>         built-in `a == b` (`!=` is its negation) when at least one operand is tagged; @0,@1 = tags
+  @assigntag <Record::field> <C macro> `x.field = e` emits MACRO(<tag of e>)
   @assign <Record::field> <C macro>    `x.field = e` emits MACRO(<condition skeleton of e>)
   @throws <callee>                     the call may throw (control may leave to the enclosing handler / the caller)
   @return <fn> <C macro name>          `return e;` in <fn> emits MACRO(<condition skeleton of e>);
   @focus <fn> <string literal>         lower only the then-branch of the first `if` in <fn> whose condition mentions the
                                        literal (e.g. the `command == "fetch"` branch of main); entry skel_<fn>__focus
+  @option vartags 1                    arguments that are plain local variables get an identity tag (1000+k), the literal 0 gets
+                                       900, and mutable locals that receive tagged values carry their current tag in a C variable
   @option loop_bound <k>               loops are unrolled <k> times (default 2): results over loops are BOUNDED
   @prologue ... @end                   ghost state and macros (C)
 """
@@ -52,7 +58,9 @@ class SkelSpec:
         self.skeleton, self.events, self.preds, self.tags, self.facets, self.throws, self.returns = [], {}, {}, {}, {}, set(), {}
         self.options, self.prologue = {}, []
         self.focus = []
-        self.tagparams, self.assigns = {}, {}
+        self.tagparams, self.assigns, self.tagcalls = {}, {}, {}
+        self.passthrough = {'second', 'first'}
+        self.assigntags = {}
         sec = None
         for raw in open(path):
             line = raw.rstrip('\n')
@@ -77,11 +85,17 @@ class SkelSpec:
                     self.throws |= set(st.split()[1:])
                 elif d == '@return':
                     self.returns[parts[1]] = parts[2]
+                elif d == '@passthrough':
+                    self.passthrough |= set(st.split()[1:])
+                elif d == '@tagcall':
+                    self.tagcalls[parts[1]] = int(parts[2])
                 elif d == '@tagparam':
                     fn, pn, n = st.split()[1:4]
                     self.tagparams.setdefault(fn, {})[pn] = int(n)
                 elif d == '@assign':
                     self.assigns[parts[1]] = parts[2]
+                elif d == '@assigntag':
+                    self.assigntags[parts[1]] = parts[2]
                 elif d == '@focus':
                     self.focus.append((parts[1], parts[2].strip()))
                 elif d == '@option':
@@ -121,6 +135,7 @@ class Skel:
         self.stats = {'functions': 0, 'lambdas': 0, 'conditions': 0, 'nondet_conditions': 0, 'events': 0, 'loops': 0,
                       'try_blocks': 0}
         self._contains = {}
+        self.dyntags, self.varids, self.dyn_decls = {}, {}, []
 
     # ------------------------------------------------------------ helpers
     def canon(self, did):
@@ -237,7 +252,7 @@ class Skel:
                 if suffix_match(q, pat):
                     self.used['tags'].add(pat)
                     return t
-            if e.get('name') in ('second', 'first') and e.get('inner'):
+            if e.get('name') in self.spec.passthrough and e.get('inner'):
                 return self.tag_of(e['inner'][0])
             return 0
         if k == 'DeclRefExpr':
@@ -255,11 +270,59 @@ class Skel:
                 return self.tag_of(me['inner'][0])
         if k in ('CXXConstructExpr', 'CXXTemporaryObjectExpr') and len(e.get('inner', [])) == 1:
             return self.tag_of(e['inner'][0])       # copy / move / converting construction of the same value
-        if k == 'CallExpr':
+        if k in ('CallExpr', 'CXXMemberCallExpr'):
             key, _, args = self.callee(e)
             if key and key.split('::')[-1] in ('move', 'forward') and len(args) == 1:
                 return self.tag_of(args[0])
+            pat = self.match(self.spec.tagcalls, key)
+            if pat:
+                return self.spec.tagcalls[pat]
+        if (k == 'BinaryOperator' and e.get('opcode') == '+') or (k == 'CXXOperatorCallExpr' and
+                self.strip(e['inner'][0]).get('referencedDecl', {}).get('name') == 'operator+'):
+            ops = e['inner'] if k == 'BinaryOperator' else e['inner'][1:]
+            if len(ops) == 2:
+                ta, tb = self.tag_of(ops[0]), self.tag_of(ops[1])
+                def is_now(x):
+                    x = self.strip(x)
+                    if x is None or x.get('kind') not in ('CallExpr', 'CXXMemberCallExpr'):
+                        return False
+                    kk, _, _ = self.callee(x)
+                    return bool(kk) and kk.split('::')[-1] == 'now'
+                if ta and not tb and is_now(ops[1]):
+                    return ta + 100
+                if tb and not ta and is_now(ops[0]):
+                    return tb + 100
         return 0
+
+    def targ(self, e):
+        """C expression for the tag of an argument: the dynamic tag variable of a mutable local, else the static tag, else (with
+        `@option vartags`) the identity of a local variable (1000+k) or 900 for the literal 0"""
+        x = self.strip(e)
+        if x is not None and x.get('kind') == 'CXXOperatorCallExpr' and len(x.get('inner', [])) == 2 and \
+                self.strip(x['inner'][0]).get('referencedDecl', {}).get('name') in ('operator*', 'operator->'):
+            x = self.strip(x['inner'][1])
+        if x is not None and x.get('kind') == 'UnaryOperator' and x.get('opcode') == '*':
+            x = self.strip(x['inner'][0])
+        while x is not None and x.get('kind') in ('CXXConstructExpr', 'CXXTemporaryObjectExpr') and len(x.get('inner', [])) == 1:
+            x = self.strip(x['inner'][0])
+        if x is not None and x.get('kind') == 'CallExpr':
+            kk, _, aa = self.callee(x)
+            if kk and kk.split('::')[-1] in ('move', 'forward') and len(aa) == 1:
+                x = self.strip(aa[0])
+        if x is not None and x.get('kind') == 'DeclRefExpr' and x['referencedDecl']['id'] in self.dyntags:
+            return self.dyntags[x['referencedDecl']['id']]
+        t = self.tag_of(e)
+        if t:
+            return str(t)
+        if self.spec.options.get('vartags'):
+            if x is not None and x.get('kind') == 'IntegerLiteral' and str(x.get('value')) == '0':
+                return '900'
+            if x is not None and x.get('kind') == 'DeclRefExpr' and x['referencedDecl'].get('kind') in ('VarDecl', 'ParmVarDecl'):
+                vid = x['referencedDecl']['id']
+                if vid not in self.varids:
+                    self.varids[vid] = 1000 + len(self.varids)
+                return str(self.varids[vid])
+        return '0'
 
     # ------------------------------------------------------------ expressions
     def nd(self):
@@ -380,7 +443,7 @@ class Skel:
     def subst_args(self, text, args):
         def sub(m):
             i = int(m.group(1))
-            return str(self.tag_of(args[i])) if i < len(args) else '0'
+            return self.targ(args[i]) if i < len(args) else '0'
         return re.sub(r'@(\d+)', sub, text)
 
     def cond(self, e, lines, ind):
@@ -409,16 +472,29 @@ class Skel:
             return f'(({a}) {e["opcode"]} ({b}))'
         if k == 'CXXBoolLiteralExpr':
             return '1' if e.get('value') else '0'
-        if k == 'BinaryOperator' and e.get('opcode') in ('==', '!=') and 'binop==' in self.spec.preds:
-            ta, tb = self.tag_of(e['inner'][0]), self.tag_of(e['inner'][1])
-            if ta or tb:
-                self.used['preds'].add('binop==')
-                self.events_in(e['inner'][0], lines, ind)
-                self.events_in(e['inner'][1], lines, ind)
-                t = f'__p{self.tmp}'
-                self.tmp += 1
-                lines.append(f'{ind}_Bool {t} = {self.spec.preds["binop=="].replace("@0", str(ta)).replace("@1", str(tb))};')
-                return t if e['opcode'] == '==' else f'!({t})'
+        opname = None
+        if k == 'CXXOperatorCallExpr' and len(e.get('inner', [])) == 3:
+            opname = self.strip(e['inner'][0]).get('referencedDecl', {}).get('name', '')[len('operator'):]
+        if (k == 'BinaryOperator' and e.get('opcode') in ('==', '!=', '<', '>', '<=', '>=')) or \
+                (opname in ('<', '>', '<=', '>=') and any('binop' + o in self.spec.preds for o in ('<', '>'))):
+            op = e['opcode'] if k == 'BinaryOperator' else opname
+            a, b = (e['inner'][0], e['inner'][1]) if k == 'BinaryOperator' else (e['inner'][1], e['inner'][2])
+            sa = self.strip(a)
+            # C++20: `x < y` on class types is rewritten to `(x <=> y) < 0`
+            if sa is not None and sa.get('kind') == 'CXXOperatorCallExpr' and \
+                    self.strip(sa['inner'][0]).get('referencedDecl', {}).get('name') == 'operator<=>' and len(sa['inner']) == 3:
+                a, b = sa['inner'][1], sa['inner'][2]
+            base = {'!=': '==', '>=': '<', '<=': '>'}.get(op, op)      # a != b == !(a == b), a >= b == !(a < b), a <= b == !(a > b)
+            if 'binop' + base in self.spec.preds:
+                ta, tb = self.targ(a), self.targ(b)
+                if ta != '0' or tb != '0':
+                    self.used['preds'].add('binop' + base)
+                    self.events_in(a, lines, ind)
+                    self.events_in(b, lines, ind)
+                    t = f'__p{self.tmp}'
+                    self.tmp += 1
+                    lines.append(f'{ind}_Bool {t} = {self.spec.preds["binop" + base].replace("@0", ta).replace("@1", tb)};')
+                    return t if base == op else f'!({t})'
         if k in ('MemberExpr', 'DeclRefExpr'):
             tb0 = self.tag_of(e)
             if (tb0, 'bool') in self.spec.facets:
@@ -429,6 +505,10 @@ class Skel:
                 o = self.strip(me['inner'][0])
                 if o is not None and o.get('kind') == 'DeclRefExpr' and o['referencedDecl']['id'] in self.optvars:
                     return self.optvars[o['referencedDecl']['id']]
+                if o is not None and o.get('kind') == 'DeclRefExpr' and o['referencedDecl']['id'] in self.dyntags and \
+                        'optional<' in (o.get('type', {}).get('qualType', '')) and \
+                        (self.tag_of(o), 'has_value') not in self.spec.facets:
+                    return f'({self.dyntags[o["referencedDecl"]["id"]]} != 901)'
             if me.get('name') == 'has_value' and me.get('inner'):
                 t = self.tag_of(me['inner'][0])
                 if (t, 'has_value') in self.spec.facets:
@@ -538,6 +618,18 @@ class Skel:
                 if d.get('kind') != 'VarDecl':
                     continue
                 init = [c for c in d.get('inner', []) if c.get('kind') and not c['kind'].endswith('Attr')]
+                tyq = d.get('type', {}).get('qualType', '')
+                if self.spec.options.get('vartags') and 'optional<' in tyq and not tyq.startswith('const ') and d['id'] not in self.dyntags:
+                    e00 = self.strip(init[0]) if init else None
+                    empty = (not init) or (e00 is not None and e00.get('kind') in ('CXXConstructExpr', 'InitListExpr') and not e00.get('inner')) or \
+                        (e00 is not None and e00.get('kind') == 'DeclRefExpr' and e00['referencedDecl'].get('name') == 'nullopt')
+                    if empty:
+                        name = f'__tv{self.tmp}_{re.sub(r"[^A-Za-z0-9_]", "_", d.get("name", "v"))}'
+                        self.tmp += 1
+                        self.dyntags[d['id']] = name
+                        self.dyn_decls.append(f'int {name};')
+                        lines.append(f'{ind}{name} = 901;   /* empty optional */')
+                        continue
                 if not init:
                     continue
                 e0 = self.strip(init[0])
@@ -545,9 +637,10 @@ class Skel:
                     self.lambdas[d['id']] = e0
                     continue
                 t = self.tag_of(init[0])
+                ty = d.get('type', {}).get('qualType', '')
                 if t:
                     self.alias[d['id']] = t
-                ty = d.get('type', {}).get('qualType', '')
+                self.maybe_dyn(d, self.targ(init[0]), lines, ind)
                 if e0 is not None and e0.get('kind') in ('CallExpr', 'CXXMemberCallExpr', 'CXXOperatorCallExpr'):
                     key0, d0, _ = self.callee(e0)
                     rk = self.callee_ret_kind(key0, d0) if (key0 and (key0.startswith('lambda:') or d0 is not None)) else None
@@ -628,11 +721,35 @@ class Skel:
                     self.assign(ins[1], ins[2], lines, ind)
         return lines
 
+    def maybe_dyn(self, d, tagexpr, lines, ind):
+        """a mutable local that receives a tagged value gets a C variable that carries its CURRENT tag along each path"""
+        ty = d.get('type', {}).get('qualType', '')
+        if d['id'] in self.dyntags or ty.startswith('const ') or tagexpr == '0' or not self.spec.options.get('vartags'):
+            return
+        name = f'__tv{self.tmp}_{re.sub(r"[^A-Za-z0-9_]", "_", d.get("name", "v"))}'
+        self.tmp += 1
+        self.dyntags[d['id']] = name
+        self.dyn_decls.append(f'int {name};')
+        lines.append(f'{ind}{name} = {tagexpr};')
+
     def assign(self, lhs, rhs, lines, ind):
         l = self.strip(lhs)
+        if l is not None and l.get('kind') == 'DeclRefExpr':
+            vid0 = l['referencedDecl']['id']
+            te = self.targ(rhs)
+            if vid0 in self.dyntags:
+                r0 = self.strip(rhs)
+                is_null = r0 is not None and r0.get('kind') == 'DeclRefExpr' and r0['referencedDecl'].get('name') == 'nullopt'
+                lines.append(f'{ind}{self.dyntags[vid0]} = {"901" if is_null else (te if te != "0" else "902")};')
+            elif te != '0' and self.spec.options.get('vartags') and vid0 in self.ix.by_id:
+                self.maybe_dyn(self.ix.by_id[vid0], te, lines, ind)
         if l is not None and l.get('kind') == 'MemberExpr':
             did = l.get('referencedMemberDecl')
             q = self.qname_of(did, l.get('name')) if did else l.get('name', '')
+            for pat, macro in self.spec.assigntags.items():
+                if suffix_match(q, pat):
+                    self.events_in(rhs, lines, ind)
+                    lines.append(f'{ind}{macro}({self.tag_of(rhs)});')
             for pat, macro in self.spec.assigns.items():
                 if suffix_match(q, pat):
                     c = self.cond(rhs, lines, ind)
@@ -850,6 +967,7 @@ class Skel:
              '#include <stdint.h>', '_Bool nondet_bool(void); int nondet_int(void);', '_Bool __skel_exc;',
              '_Bool __skel_ret;   /* success facet (true / has_value) of the last skeleton callee that returned bool or optional */', '']
         L += self.spec.prologue + ['']
+        L += ['/* current tag of mutable locals (path-sensitive) */'] + self.dyn_decls + ['']
         L += self.protos + ['']
         for _, t in self.out:
             L.append(t)
